@@ -562,6 +562,13 @@ func r12Parents(c *core.Ctx, p *load.Program, sh *tarShape) {
 			if ssax.StaticCallee(x) == sh.write {
 				at = x
 			}
+			// the directory entry's own Mkdir on the destination needs its parent as much as a file does
+			if m := ssax.InvokeMethod(x); m != nil && m.Name() == "Mkdir" {
+				at = x
+			}
+			if ssax.CalleeIs(x, mod, "Mkdir") {
+				at = x
+			}
 		}
 		if at == nil {
 			return
